@@ -274,8 +274,9 @@ def r72(ctx, fx, et):
                 seq.append(("remove",))
     ctx.inst(rid, key + "|index", sample={"sequence": [s[0] for s in seq], "iteration_variable": itervar})
     kinds = [s[0] for s in seq]
-    if kinds != ["add", "emit", "remove"]:
-        ctx.finding(rid, key + "|index", "per iteration the body must run between add_symbol(\"index\") and remove_symbol(\"index\"); sequence is %s" % kinds,
+    # (`index` lives in the iteration's own scope; whether it is taken out again afterwards is nothing the expansion depends on — and C16 R16.7 wants it to stay)
+    if kinds[:2] != ["add", "emit"] or any(k_ != "remove" for k_ in kinds[2:]):
+        ctx.finding(rid, key + "|index", "per iteration the body must run behind add_symbol(\"index\") in the iteration's scope; sequence is %s" % kinds,
                     "%s:%s" % (et.file, arm.get("ln")))
     else:
         if seq[0][1] != itervar or seq[0][2] != "Constant":
